@@ -115,13 +115,18 @@ def nearCheck (op : SetOp) (A B R : Flat) (r2 : Int) (k : Nat) (margin : Int) : 
 
 /-! ### light exact validity of the result's rings -/
 
-/-- closed, at least 4 points, no two consecutive equal points -/
-def ringShapeOK (r : List Pt) : Bool :=
-  decide (4 ≤ r.length) && (r.head? == r.getLast?) && (edges r).all fun e => e.1 != e.2
+/-- drop a point equal to its predecessor (repeated points are legal in a valid ring) -/
+def dropRepeated : List Pt → List Pt
+  | a :: b :: r => if a == b then dropRepeated (b :: r) else a :: dropRepeated (b :: r)
+  | l => l
 
-/-- no two segments of the polygon's rings cross properly or overlap collinearly -/
+/-- closed, and at least 4 points once repeated points are dropped -/
+def ringShapeOK (r : List Pt) : Bool :=
+  decide (4 ≤ (dropRepeated r).length) && (r.head? == r.getLast?)
+
+/-- no two (non-degenerate) segments of the polygon's rings cross properly or overlap collinearly -/
 def ringsNoCross (p : List (List Pt)) : Bool :=
-  let es := p.flatMap edges
+  let es := (p.flatMap fun r => edges (dropRepeated r)).filter fun e => e.1 != e.2
   let rec go : List (Pt × Pt) → Bool
     | [] => true
     | e :: r => (r.all fun f => match segRel e.1 e.2 f.1 f.2 with
